@@ -158,6 +158,9 @@ func fill(r gen.R, v reflect.Value, vals rm.Vals, zeroDates bool) {
 				vals[name] = rm.ZeroDateTime()
 			} else {
 				tt := localDateTime(r)
+				// a date-time an application made from its own clock has a fraction of a second: the protocol carries whole seconds - the
+				// second the value is in, not the nearest one
+				tt = tt.Add(time.Duration([]int{0, 0, 1, 499_999_999, 500_000_000, 750_000_000, 999_999_999}[r.Pick(7)]))
 				set(reflect.ValueOf(types.DateTime(tt)))
 				y, m, d := tt.Date()
 				h, mi, s := tt.Clock()
